@@ -559,12 +559,11 @@ def run_sequences(binary, wd, seqs, part, model=None, per_case=400,
                         binary, wd, full, len(full) - len(steps) + idx, key,
                         detail))
             elif sample_tag and not ispre and len(part["samples"]) < 1:
-                last = [s for s in steps if s[0] != "new"][-3:]
+                sl, _m = render(steps, False)
                 part["samples"].append(dict(
-                    part=sample_tag, steps=len(steps),
-                    last_ops=["%s %s" % (fn_name(o, v_), a if isinstance(
-                        a, str) else a.decode("latin-1"))
-                        for o, v_, a in last]))
+                    part=sample_tag, operations=len(steps),
+                    script=sl[:14] + (["... (%d more lines)" % (len(sl) - 14)]
+                                      if len(sl) > 14 else [])))
 
 
 def needed_prefix(prefix, steps):
@@ -1052,7 +1051,7 @@ def quote_chunk(chunk_id, payload):
         q = ev.get("ret")
         qb = None if q is None else q.encode("latin-1")
         if len(part["samples"]) < 1 and i > 3:
-            part["samples"].append(dict(part="E:quote_key",
+            part["samples"].append(dict(part="Q:quote_key",
                                         key=k.decode("latin-1"),
                                         quoted=q))
         if not M.quote_key_ok(k, qb):
@@ -1091,7 +1090,7 @@ def quote_chunk(chunk_id, payload):
     if chunk_id == 0:
         seqs += twin_sequences()
     run_sequences(binary, wd, seqs, part, model=None, per_case=50,
-                  sample_tag=None)
+                  sample_tag="E:quote_key-as-descriptor")
     bump(part, "E_keys", len(keys))
     return part
 
@@ -1147,7 +1146,16 @@ def main():
     # long jobs first
     order = {"A": 0, "H": 1, "E": 2, "D": 3}
     payloads.sort(key=lambda p: order[p[0]])
+    shown = set()
     for part in R.pmap(dispatch, payloads):
+        # one sample per part of the check
+        keep = []
+        for s in part.get("samples", []):
+            tag = s.get("part", "?")[:1]
+            if tag not in shown:
+                shown.add(tag)
+                keep.append(s)
+        part["samples"] = keep
         chk.merge(part)
     chk.counters["A_alphabet"] = len(alpha)
     chk.counters["A_start_trees"] = len(START)
